@@ -88,7 +88,8 @@ def check(prog: Program, tier: str) -> Result:
     _r12_6(prog, res)
     _r12_7(prog, res)
     _r12_8(prog, res)
-    res.floors.update({"R12.1": 18, "R12.2": 11, "R12.3": 3, "R12.4": 8, "R12.5": 1, "R12.6": 4, "R12.7": 4, "R12.8": 1})
+    _r12_9(prog, res)
+    res.floors.update({"R12.1": 18, "R12.2": 11, "R12.3": 3, "R12.4": 8, "R12.5": 1, "R12.6": 4, "R12.7": 4, "R12.8": 1, "R12.9": 1})
     return res
 
 
@@ -527,6 +528,31 @@ def _r12_5(prog: Program, res: Result) -> None:
         res.decide(ok, "R12.5", fn.loc(tail), fn.fq, "result after the loop is exhausted", "no match" if ok else "falling out of the expansion loop no longer means 'no match'")
 
 
+def _r12_9(prog: Program, res: Result) -> None:
+    """Leaf values are compared as CODE, not as Python values: `1 == True == 1.0` and `0 == False == 0.0 == 0j`, but `f(1)`,
+    `f(True)` and `f(1.0)` are three different programs.  Wherever match_template answers a match because `node == template`,
+    the path must also carry that the two have the same type."""
+    from ..pathcond import PathAnalysis
+    fn = prog.func("core", "match_template")
+    node, tmpl = fn.posparams[:2]
+    pa = PathAnalysis(prog, fn)
+    eq = ast.parse(f"{node} == {tmpl}", mode="eval").body
+    same = [ast.parse(t, mode="eval").body for t in (f"type({node}) is type({tmpl})", f"type({node}) == type({tmpl})", f"isinstance({node}, type({tmpl}))")]
+    n = 0
+    for r in walk_own(fn.node):
+        if not isinstance(r, ast.Return) or r.value is None or (isinstance(r.value, ast.Tuple) and not r.value.elts):
+            continue
+        if not pa.holds_at(r, lambda w: pa.formula(eq, w))[0]:
+            continue      # this return is not justified by value equality
+        n += 1
+        ok = any(pa.holds_at(r, lambda w, t=t: pa.formula(t, w))[0] for t in same)
+        res.decide(ok, "R12.9", fn.loc(r), fn.fq, f"{short(r, 50)} # after {node} == {tmpl}",
+                   "equal values of the same type" if ok else
+                   "a leaf matches whenever the VALUES are equal: the pattern `f(1)` also reports `f(True)` and `f(1.0)`, `x = 0` reports `x = False` and `x = 0.0`")
+    if n == 0:
+        res.undecided("R12.9", fn.loc(), fn.fq, "leaf comparison", "no return justified by value equality found")
+
+
 def _r12_8(prog: Program, res: Result) -> None:
     """A wildcard stands for SOME syntax tree.  An optional child that is absent (the value of a bare `return`, the type of a
     bare `except:`, the bounds of `a[:]`, a missing annotation) is None in the tree, and `isinstance(None, object)` holds - so
@@ -597,6 +623,9 @@ def _r12_7(prog: Program, res: Result) -> None:
 from ..selftest import Variant  # noqa: E402
 
 VARIANTS = [
+    Variant("leaf-values-compared-by-equality-only", "FIRE", "core", "    if type(node) is type(template) and node == template:\n        return (node,)", "    if node == template:\n        return (node,)", "R12.9"),
+    Variant("leaf-type-test-as-early-exit", "SILENT", "core", "    if type(node) is type(template) and node == template:\n        return (node,)",
+            "    if type(node) is not type(template):\n        return ()\n\n    if node == template:\n        return (node,)"),
     Variant("wildcard-matches-absent-child", "FIRE", "core",
             "    if node is None:\n        # An optional child that is absent, like the value of a bare return. A wildcard stands for\n        # some piece of code, and there is none.\n        return ()\n\n", "", "R12.8"),
     Variant("wildcard-absent-child-tested-by-isinstance", "SILENT", "core",
